@@ -394,6 +394,12 @@ func (set *Set) remove(hosts ...*Host) {
 		return
 	}
 	for _, host := range hosts {
+		// NOTE: the given host may be another instance with the same address
+		// (e.g. built from an endpoint), so handle the one in the set as well.
+		if cur, ok := set.all[host.Addr]; ok && cur != host {
+			cur.markRemoved()
+			set.removeFromHealthy(cur)
+		}
 		delete(set.all, host.Addr)
 		host.markRemoved()
 	}
